@@ -5,7 +5,9 @@ import json, sys
 pid, wt = sys.argv[1][:3], sys.argv[2]
 round2 = len(sys.argv[1]) > 3
 extra = sys.argv[3] if len(sys.argv) > 3 else ""
-if len(sys.argv[1]) > 3:
+if sys.argv[1][3:] == "c":
+    extra += "\nThis is a THIRD-ROUND request. Earlier rounds already tried: off-by-one errors in the main write/read loops, wrong bounds of R-tree index nodes, early-exit 'optimisations' of the index search, buffers reused without clearing, and skipping work for zero-length items. Choose a DIFFERENT kind of change in a DIFFERENT function: e.g. an error or end-of-input path, byte-order or integer-width handling, a header / offset / count field, interaction of two options, state carried between calls or between chromosomes, a concurrency hand-off, or a default value.\n"
+elif len(sys.argv[1]) > 3:
     extra += "\nThis is a SECOND-ROUND request: an obvious off-by-one in the main loop has already been tried. Prefer a change that is subtle: e.g. only wrong for a rare combination of options or data shape, an error path, a caching/state-carrying effect between calls, a concurrency window, an integer-width or boundary-value issue, or two edits in different functions that are each harmless alone.\n"
 p = next(json.loads(l) for l in open('/verif/properties.jsonl') if json.loads(l)['id'] == pid)
 print(f"""You are helping to evaluate a verification framework for the Rust project jackh726/bigtools (a library and CLI tools for reading/writing UCSC bigWig/bigBed files). You work ONLY inside the scratch git worktree at {wt} (a checkout of the project; never touch /repo or /verif, and do not read anything under /verif). The sandbox is offline: use `cargo ... --offline`; build output must stay inside the worktree (e.g. `CARGO_TARGET_DIR={wt}/target`). Keep CPU use modest (`-j 4`).
